@@ -495,8 +495,9 @@ inline bool plan_effect(Model const& M, ModelTraits const& T, Op const& op, Effe
 			if(op.var < 0 || op.var > 1) return false;
 		} else {
 			if(!binary_view_dims_ok(dv, sv)) return false;
-			if(op.kind == O_VASSIGN_VIEW && (op.var < 0 || op.var > 5)) return false;
-			if(op.kind == O_VASSIGN_VIEW && (op.var == 2 || op.var == 4) && !T.tracked && !T.trivial) return false;  // moved-from value of such elements is unspecified
+			if(op.kind == O_VASSIGN_VIEW && (op.var < 0 || op.var > 6)) return false;
+			if(op.kind == O_VASSIGN_VIEW && (op.var == 2 || op.var == 4 || op.var == 6) && !T.tracked && !T.trivial) return false;
+			if(op.kind == O_VASSIGN_VIEW && op.var == 6 && (op.cb.n != 0 || same_root || T.static_arrays)) return false;  // source is a whole moved array: std::move(b)()  // moved-from value of such elements is unspecified
 			if(op.kind == O_VSWAP && (op.var < 0 || op.var > 1)) return false;
 		}
 		bool const overlap = same_root && !disjoint(dv, sv);
@@ -509,7 +510,7 @@ inline bool plan_effect(Model const& M, ModelTraits const& T, Op const& op, Effe
 		e.expect_no_alloc = e.expect_base_unchanged = true;
 		if(same_root) { var("same-root"); e.probe_id = P_VIEW_SAME_ROOT; }
 		if(dv.count() == 0) var("empty");
-		if(op.kind == O_VSWAP || (op.kind == O_VASSIGN_VIEW && (op.var == 2 || op.var == 4))) {
+		if(op.kind == O_VSWAP || (op.kind == O_VASSIGN_VIEW && (op.var == 2 || op.var == 4 || op.var == 6))) {
 			e.moves_elements = true;
 			e.touched[0].assign(ra.v.size(), 0);
 			for(int q : dv.off) e.touched[0][static_cast<std::size_t>(q)] = 1;
@@ -540,9 +541,9 @@ inline bool plan_effect(Model const& M, ModelTraits const& T, Op const& op, Effe
 		} else
 		for(std::size_t i = 0; i < dv.off.size(); ++i) a.v[static_cast<std::size_t>(dv.off[i])] = rb.v[static_cast<std::size_t>(sv.off[i])];
 		if(op.kind == O_VASSIGN_VIEW) {
-			static char const* vn[] = {"const-ref", "moved-view", "element-moved", "rvalue-dest", "rvalue-dest/element-moved", "rvalue-dest/moved-view"};
+			static char const* vn[] = {"const-ref", "moved-view", "element-moved", "rvalue-dest", "rvalue-dest/element-moved", "rvalue-dest/moved-view", "moved-array"};
 			var(vn[op.var]);
-			if((op.var == 2 || op.var == 4) && !T.trivial) {
+			if((op.var == 2 || op.var == 4 || op.var == 6) && !T.trivial) {
 				MArr* b = same_root ? &a : &tgt(1, op.db, op.b);
 				e.viewwrite[1] = true;
 				for(std::size_t i = 0; i < sv.off.size(); ++i) b->v[static_cast<std::size_t>(sv.off[i])] = -7777;
@@ -578,6 +579,10 @@ inline bool plan_effect(Model const& M, ModelTraits const& T, Op const& op, Effe
 			var(op.var ? "view" : "array");
 		}
 		if(op.kind == O_VASSIGN_RANGE && dv.D > 3) return false;
+		if(op.kind == O_VASSIGN_RANGE) {
+			if(op.var < 0 || op.var > 1) return false;  // the two-iterator assign of 1-D views is hidden by subarray::assign(It)
+			var(op.var == 0 ? "operator=" : "assign(first)");
+		}
 		if(op.kind == O_VASSIGN_IL && !il_shape_ok(dv.D, dv.n)) return false;
 		if(op.kind == O_VFILL && dv.D != 1) return false;
 		if(op.kind == O_EASSIGN_IL && dv.count() > 6) return false;
